@@ -90,6 +90,32 @@ Proof.
 Qed.
 Print Assumptions C11_no_raise_partial.
 
+(* No reader ever observes a partially written final name -- stated against rename atomicity as the only
+   operating-system hypothesis (it is how [Rename] is defined in Model/FsModel.v: the final name
+   switches from its old content to the complete new content in one step).  For ANY mix of source
+   versions, any number of participants, any schedule, kills and torn writes included: opening and
+   reading <k>/output.pkl yields ENOENT or a whole pickle; <k>/metadata.json yields ENOENT or the whole json. *)
+Theorem C11_readers_see_complete :
+  forall pickle unpickle meta parse_meta code code_eq decodes gitbytes f (sps : list spec) evs s k,
+  NoDup (map spec_tid sps) -> InvA pickle meta s ->
+  let s' := fst (grun evs (s, map (fun sp => Some (sess pickle unpickle meta parse_meta code code_eq decodes gitbytes f sp)) sps)) in
+  match fst (exec (ReadAll (POut k)) s') with
+  | RBytes b => exists v, b = pickle v | RErr e => e = ENOENT | _ => False end /\
+  match fst (exec (ReadAll (PMeta k)) s') with
+  | RBytes b => b = meta | RErr e => e = ENOENT | _ => False end.
+Proof. exact readers_complete. Qed.
+Print Assumptions C11_readers_see_complete.
+
+(* The temporary name of concurrency_safe_write, "<file>.thread-<id(current_thread())>-pid-<getpid()>"
+   (pattern regenerated from the source: Gen/T_store_ops.v, gen_tmpname), is injective in (pid, thread id):
+   writers in two processes AND two threads of one process get different temporaries, which is the
+   NoDup hypothesis of every theorem of this file. *)
+Theorem C11_writer_ids_distinct : forall (l : list (Z * Z)),
+  (forall pt, In pt l -> 0 <= snd pt < 18446744073709551616) -> NoDup l ->
+  NoDup (map (fun pt => writer_id (fst pt) (snd pt)) l).
+Proof. exact NoDup_writer_ids. Qed.
+Print Assumptions C11_writer_ids_distinct.
+
 Example C11_hypotheses_satisfiable :
   InvB Toy.pickle Toy.meta Toy.code Toy.f 1 toy_s1 /\ Warm Toy.code 1 toy_s1 /\
   Toy.decodes (Toy.code 1) = true /\ Toy.code_eq (Toy.code 1) 1 = true.
